@@ -25,7 +25,7 @@ CLASSES = ["SetCover", "VertexCover", "BILP", "JobSequencing", "GraphPartitionin
 def FLOORS(tier):
     q = tier == "quick"
     f = {"ground-state-rows-decoded": 1500 if q else 50000, "is_solution_valid-checks": 8000 if q else 3 * 10 ** 5,
-         "solve_bruteforce-calls": 250 if q else 8000, "SetCover:log_trick=True": 10, "SetCover:log_trick=False": 10,
+         "solve_bruteforce-calls": 250 if q else 8000, "solve_bruteforce-all_solutions-calls": 60 if q else 2500, "SetCover:log_trick=True": 10, "SetCover:log_trick=False": 10,
          "JobSequencing:log_trick=True": 10, "JobSequencing:log_trick=False": 10, "weights:default": 100,
          "weights:just-above-threshold": 100, "spin-input-decoded": 300}
     for c in CLASSES:
@@ -205,6 +205,11 @@ def do_VertexCover(ctx, rng, w, bad, call):
     s = call("solve_bruteforce", p.solve_bruteforce)
     if not isinstance(s, set) or not all(u in s or v in s for u, v in edges) or len(s) != best:
         bad("solve_bruteforce-not-optimal", "solve_bruteforce() = %r, optimum %d" % (s, best))
+    alls = call("solve_bruteforce", p.solve_bruteforce, all_solutions=True)
+    ctx.count("solve_bruteforce-all_solutions-calls")
+    optimal = sorted(sorted(map(str, c)) for c in covers if len(c) == best)
+    if sorted(sorted(map(str, x)) for x in alls) != optimal:
+        bad("solve_bruteforce-all_solutions-wrong", "all_solutions %r, minimum covers %r" % (alls, optimal))
     if len(covers) >= 2:
         ctx.nontrivial(("VertexCover", sorted(map(str, edges))))
     ctx.sample({"class": "VertexCover", "edges": edges, "optimum": best}, limit=1)
@@ -243,6 +248,11 @@ def do_BILP(ctx, rng, w, bad, call):
     s = call("solve_bruteforce", p.solve_bruteforce, A=thr + 1, B=B)
     if tuple(int(v) for v in s) not in feasset or float(np.dot(c, s)) != best:
         bad("solve_bruteforce-not-optimal", "solve_bruteforce() = %r, optimum %r" % (s, best))
+    alls = call("solve_bruteforce", p.solve_bruteforce, A=thr + 1, B=B, all_solutions=True)
+    ctx.count("solve_bruteforce-all_solutions-calls")
+    for sol in alls:
+        if tuple(int(v) for v in sol) not in feasset or float(np.dot(c, sol)) != best:
+            bad("solve_bruteforce-all_solutions-wrong", "all_solutions contains %r (optimum %r)" % (sol, best))
     if 2 <= len(feasset) < (1 << N):
         ctx.nontrivial(("BILP", c, S, b))
     ctx.sample({"class": "BILP", "c": c, "S": S, "b": b, "optimum": best}, limit=1)
@@ -293,6 +303,15 @@ def do_JobSequencing(ctx, rng, w, bad, call):
     flat = [j for cl in s for j in cl]
     if sorted(map(str, flat)) != sorted(map(str, jobs)) or cost(s) != opt:
         bad("solve_bruteforce-not-optimal", "solve_bruteforce() = %r (makespan %r), optimum %r" % (s, cost(s), opt))
+    alls = call("solve_bruteforce", p.solve_bruteforce, all_solutions=True)
+    ctx.count("solve_bruteforce-all_solutions-calls")
+    want = set()
+    for asg in itertools.product(range(m), repeat=nj):
+        if max(sum(l for l, a in zip(lengths, asg) if a == wk) for wk in range(m)) == opt:
+            want.add(tuple(frozenset(jobs[ji] for ji in range(nj) if asg[ji] == wk) for wk in range(m)))
+    got = [tuple(frozenset(cl) for cl in sol) for sol in alls]
+    if set(got) != want or len(got) != len(want):
+        bad("solve_bruteforce-all_solutions-wrong", "all_solutions returned %d schedules %r, the %d optimal ones are %r" % (len(got), got[:3], len(want), sorted(map(str, want))[:3]))
     if nj >= 2 and m >= 2:
         ctx.nontrivial(("JobSequencing", lengths, m, lt, asdict))
     ctx.sample({"class": "JobSequencing", "job_lengths": jl, "num_workers": m, "log_trick": lt, "optimum": opt}, limit=1)
